@@ -393,7 +393,13 @@ def v1Tuple (std : Std) (cfg : Option MetaCfg) : List Ty → Nat → JVal → Ex
   | [], _, _ => pure []
   | t :: ts, k, o =>
       match jIndex o k with
-      | none => perr
+      | none =>
+        -- `v1[k]` beyond the end raises IndexError: a ParseError once the enclosing class function re-raises it, but an
+        -- enclosing NamedTuple loader catches exactly this class first (`v1NtSeq`)
+        match o with
+        | .list _ => rawE "IndexError"
+        | .str _ => rawE "IndexError"
+        | _ => perr
       | some x => do
           let y ← loadV1 std cfg t x
           let ys ← v1Tuple std cfg ts (k + 1) o
@@ -407,10 +413,18 @@ def v1NtSeq (std : Std) (cfg : Option MetaCfg) (ntName : S) : List (S × Ty × O
       if k < n then
         match jIndex o k with
         | none => perr
-        | some x => do
-            let y ← loadV1 std cfg t x
-            let ys ← v1NtSeq std cfg ntName fs (k + 1) n o
-            pure (y :: ys)
+        | some x =>
+            -- the loader's `except IndexError` also catches the IndexError of a nested fixed-length tuple that is too
+            -- short: the field (and every required one after it) is then reported as missing although it is present
+            match loadV1 std cfg t x with
+            | .error (.raw e) =>
+              if e == "IndexError".toList then
+                .error (.missingFields ntName (((fname, t, d) :: fs).filterMap (fun f => if f.2.2.isNone then some f.1 else none)))
+              else .error (.raw e)
+            | .error e => .error e
+            | .ok y => do
+                let ys ← v1NtSeq std cfg ntName fs (k + 1) n o
+                pure (y :: ys)
       else if d.isNone then
         .error (.missingFields ntName (((fname, t, d) :: fs).filterMap (fun f => if f.2.2.isNone then some f.1 else none)))
       else
